@@ -47,6 +47,7 @@ class CtlProperty:
             cfg = inner(unit)
             cfg.burst = True
             cfg.early_gates = False
+            cfg.cost_of = None  # every request counts against the one budget K
             if alphabet is not None:
                 cfg.alphabet = tuple(alphabet)
             return cfg
